@@ -139,8 +139,8 @@ UNIT = Unit(
     trusted=["std::collections::HashSet<String> is a shim over a mathematical set (new / insert / contains)",
              "`name.split_once('.')` is the stub str_split_once_dot: the package qualifier of a Go name is an uninterpreted function call_pkg of its text",
              "rules for_index / let_chain_rev / box_as_ref (std semantics assumed); `for (a, b) in v` is rewritten to a loop over the pairs",
-             "the NOTION of reference is the code's own: a call whose callee variable is spelled `pkg.Name`. Other ways a Go file can need a package "
-             "(a type `pkg.T` in a signature) are not modelled — the back end emits none for imported packages"],
+             "the NOTION of reference: a call whose callee variable is spelled `pkg.Name`, or a type alias whose target is `pkg.T` (extern types). A type `pkg.T` "
+             "written anywhere else (a signature, a field) is not modelled — the back end spells extern types through their alias"],
     items=types + [
         Raw(path="contracts/box.shim.rs"),
         Raw(path="contracts/gopkgs.spec.rs"),
@@ -148,8 +148,9 @@ UNIT = Unit(
         fn("collect_packages_in_stmt", "stmt_refs(*stmt, p)", "*stmt"),
         fn("collect_packages_in_block", "stmts_refs(block.stmts@, p)", "*block"),
         Fn(file=G + "dce.rs", name="collect_packages_in_item", attrs="#[verifier::loop_isolation(false)]", rules=RULES,
-           pre_rewrites=[(FOR[0], snap(), "*")],
-           obligation="the bodies of a function item and of every method of a struct item are visited; the other items contain no code",
+           pre_rewrites=PRE + [(FOR[0], snap(), "*")], rewrites=[(re.compile(r"crate::go::goty::GoType::"), "GoType::", "*")],
+           obligation="the bodies of a function item and of every method of a struct item are visited, and the target of a type alias counts as a use of the package it "
+                      "names; the other items contain no code",
            contract=POST.replace("{R}", "item_refs(*item, p)"), loop_fn=loops),
         Fn(file=G + "dce.rs", name="gather_import_names", ret="r", attrs="#[verifier::loop_isolation(false)]", rules=RULES,
            obligation="the result is exactly the set of names the file's import specs bind",
